@@ -89,6 +89,13 @@ def printer_coverage(check: Check, repo: Repo, model: AstModel) -> None:
         if pname:
             m = _see_through_helpers(repo, m, pname)
         used = _fields_reaching_return(m, pname) if pname else set()
+        # the printed text is a function of the structural fields only: a read of the source
+        # extent makes print(parse(print(x))) differ from print(x)
+        for n in ast.walk(m):
+            if pname and isinstance(n, ast.Attribute) and n.attr == "loc" and isinstance(n.value, ast.Name) and n.value.id == pname:
+                check.ob(rule, n, f"leave_{kind} reads only structural fields", False,
+                         f"`{unparse(n)}` is read while printing a {kind} node: the output then depends on where the "
+                         "node came from, not on the tree")
         missing = fields - used
         check.ob(
             rule, m, f"leave_{kind} reads {sorted(fields)}", not missing,
